@@ -44,6 +44,11 @@ def step (s : St) (ws : List String) : IO (St × String) := do
     let pre ← readBytes p
     let wal ← readBytes w
     return ({ s with pre, wal }, s!"load {pre.length} {wal.length}")
+  | ["wf"] =>
+    let wk := Wal.walk s.wal
+    let cnt := fun (q : Wal.Rec → Bool) => (wk.filter fun pr => q pr.2).length
+    let b := fun (x : Bool) => if x then 1 else 0
+    return (s, s!"wf sep={b (s.wal.headD 0 == Gen.Wal.WOP_SEP)} closed={b (Wal.segClosedB s.wal)} full={b (Wal.walkFull s.wal)} nrec={wk.length} nsp={cnt (· == .savepoint)} nreset={cnt (· == .reset)}")
   | ["scan", cut, fl] =>
     let d := damaged s.wal (natArg cut) (parseFlips fl)
     let (f, r) := Wal.prescan d
@@ -52,6 +57,10 @@ def step (s : St) (ws : List String) : IO (St × String) := do
     let d := damaged s.wal (natArg cut) (parseFlips fl)
     let (rc, m, w') := Wal.recover (cfgOf (crc == "1")) (natArg mode) d s.pre
     return (s, s!"rec rc={rcName rc} msz={m.length} mh={hex16 (fnv m)} wsz={w'.length}")
+  | ["roll", _, mode, crc, cut, fl] =>
+    let d := damaged s.wal (natArg cut) (parseFlips fl)
+    let (rc, m, w') := Wal.recover (cfgOf (crc == "1")) (natArg mode) d s.pre
+    return (s, s!"roll rc={rcName rc} msz={m.length} mh={hex16 (fnv m)} wsz={w'.length}")
   | ["ckpt", p, w, _] =>
     -- a real checkpoint: roll the whole log forward (mode 0, no offset) over the pre-image
     let pre ← readBytes p
